@@ -1,14 +1,86 @@
 package main
 
 import (
+	"flag"
+	"fmt"
+	"os"
+	"sort"
+	"strings"
+	"time"
+
 	"verifharness/cli"
+	"verifharness/evidence"
+	"verifharness/props/idw"
 	"verifharness/props/syncrun"
 	"verifharness/props/syncw"
 	"verifharness/xstate"
 )
 
 func main() {
-	cli.Main(map[string]func([]string){
-		"C02": func(a []string) { syncrun.Run("C02", a) },
-	}, map[string]xstate.Factory{"syncw": syncw.New})
+	cli.Main(map[string]func([]string){"C02": run},
+		map[string]xstate.Factory{"syncw": syncw.New, "idw": idw.New})
+}
+
+// run = the sync-world exploration of bug pulls (syncrun) plus the identity world: the statement
+// of C02 speaks of bugs AND identities, and an identity pull has its own merge code.
+func run(args []string) {
+	fs := flag.NewFlagSet("C02", flag.ExitOnError)
+	replay := fs.String("replay", "", "replay file")
+	depthOverride := fs.Int("depth", 0, "override depth")
+	fs.Parse(args)
+	if *replay != "" {
+		os.Exit(syncrun.Replay(*replay))
+	}
+	tier := evidence.Tier()
+	seed := uint64(evidence.Seed())
+	rep := evidence.NewReporter("C02")
+	start := time.Now()
+	cov, harnessErr := syncrun.Explore("C02", tier, seed, *depthOverride, rep)
+
+	// identity pulls: mutate/push/pull of a shared identity (+1 bystander) on two replicas, every
+	// pull compared with the prefix-relation model (contains everything of the remote version,
+	// report agrees with what changed, returned entity = stored one)
+	depth, budget := 5, 45*time.Second
+	if tier == "thorough" {
+		depth, budget = 7, 8*time.Minute
+	}
+	if *depthOverride > 0 {
+		depth = *depthOverride
+	}
+	p := idw.Params{Seed: seed, Others: 1}
+	fmt.Fprintf(os.Stderr, "== C02: identity pulls (depth %d)\n", depth)
+	res := xstate.Run(xstate.Config{Property: "C02", Model: "idw", Params: p.String(), MaxDepth: depth,
+		Deadline: time.Now().Add(budget), CrashIsViolation: true, Log: os.Stderr})
+	for _, e := range res.HarnessErrors {
+		fmt.Fprintln(os.Stderr, "harness error:", e)
+		harnessErr = true
+	}
+	sort.Slice(res.Found, func(i, j int) bool { return len(res.Found[i].Path) < len(res.Found[j].Path) })
+	for _, fd := range res.Found {
+		n := xstate.Reproductions("idw", p.String(), fd, 5)
+		rep.Report(evidence.Report{Oracle: strings.Replace(fd.Oracle, "c09.", "c02.identity.", 1), Sig: fd.Sig,
+			Detail: fmt.Sprintf("[identity pulls] after %v: %s (reproduced %d/5)", fd.Path, fd.Detail, n),
+			Replay: map[string]any{"model": "idw", "params": p, "path": fd.Path, "reproduced_of_5": n}, Count: res.SigCount[fd.Oracle+"|"+fd.Sig]})
+	}
+	cov["states"] = cov["states"].(int) + res.States
+	cov["transitions"] = cov["transitions"].(int) + res.Transitions
+	cov["traces_validated_against_impl"] = cov["transitions"]
+	cov["exhaustive"] = cov["exhaustive"].(bool) && res.Exhaustive
+	cov["runs"] = append(cov["runs"].([]map[string]any), map[string]any{"configuration": "identity pulls (shared identity + 1 bystander, two replicas)",
+		"params": p, "max_depth": depth, "completed_depth": res.CompletedDepth, "states": res.States, "transitions": res.Transitions, "new_states_per_depth": res.PerDepth})
+	for _, s := range res.Samples {
+		cov["samples"] = append(cov["samples"].([]any), map[string]any{"configuration": "identity pulls", "path": s})
+	}
+	ev := evidence.Evidence{PropertyID: "C02", Tier: tier, Seed: int(seed), Level: "model_checking", Coverage: cov,
+		Assumptions: append(append([]string{}, syncrun.Assumptions...), "identity pulls are explored in their own world (props/idw, shared with C09)"),
+		WallS: time.Since(start).Seconds(), Violations: rep.Viol, Known: rep.KnownSeen()}
+	if err := ev.Write(); err != nil {
+		fmt.Fprintln(os.Stderr, "harness error: cannot write evidence:", err)
+		os.Exit(2)
+	}
+	fmt.Printf("C02: states=%v transitions=%v exhaustive=%v violations=%d wall=%.1fs\n", cov["states"], cov["transitions"], cov["exhaustive"], rep.Viol, time.Since(start).Seconds())
+	if harnessErr && rep.Viol == 0 {
+		os.Exit(2)
+	}
+	rep.Exit()
 }
